@@ -466,6 +466,127 @@ let framing_case (line : string) : string =
       Printf.sprintf "stream:%s oneshot:%s" (show_bytes stream) (show_bytes (frame (fmode_of m) data))
   | _ -> failwith "bad framing case"
 
+(* ---- domain elixir (C20) ---- *)
+let estr_in (s : string) : estr = StrOk (bytes_of_hex s)
+let estr_opt_in (s : string) : estr option = if s = "-" then None else Some (estr_in s)
+let estr_out = function StrOk b -> hex_of_bytes b | StrLossy -> "LOSSY"
+let estr_opt_out = function None -> "-" | Some s -> estr_out s
+let zt t = z_of_dec (next t)
+let rd_w (t : toks) : wval =
+  match next t with
+  | "range" -> let f = zt t in let l = zt t in let s = zt t in WRange { rfirst = f; rlast = l; rstep = s }
+  | "date" -> let y = zt t in let m = zt t in let d = zt t in WDate (y, m, d)
+  | "time" -> let h = zt t in let mi = zt t in let s = zt t in let us = zt t in let p = zt t in WTime (h, mi, s, us, p)
+  | "naive" -> let y = zt t in let m = zt t in let d = zt t in
+               let h = zt t in let mi = zt t in let s = zt t in let us = zt t in let p = zt t in WNaive (y, m, d, h, mi, s, us, p)
+  | "datetime" -> let y = zt t in let m = zt t in let d = zt t in
+               let h = zt t in let mi = zt t in let s = zt t in let us = zt t in let p = zt t in
+               let tz = estr_in (next t) in let ab = estr_in (next t) in let utc = zt t in let std = zt t in
+               WDateTime (y, m, d, h, mi, s, us, p, tz, ab, utc, std)
+  | "mapset" -> let n = int_of_string (next t) in
+               let rec many n = if n = 0 then [] else let x = rd_term cmp_owned t in x :: many (n - 1) in
+               WMapSet (set_of_list (many n))
+  | "msgerr" -> let k = n_of_dec (next t) in WMsgErr (k, estr_in (next t))
+  | "keyerr" -> let key = rd_term cmp_owned t in let tm = rd_term cmp_owned t in WKeyErr (key, tm, estr_opt_in (next t))
+  | "termerr" -> let k = n_of_dec (next t) in WTermErr (k, rd_term cmp_owned t)
+  | "undef" -> let m = estr_in (next t) in let f = estr_in (next t) in let a = zt t in WUndef (m, f, a, estr_opt_in (next t))
+  | "fclause" -> let m = estr_opt_in (next t) in let f = estr_opt_in (next t) in
+               let a = (let s = next t in if s = "-" then None else Some (z_of_dec s)) in
+               let args = (if next t = "-" then None else Some (rd_term cmp_owned t)) in WFClause (m, f, a, args)
+  | "cond" -> WCond
+  | x -> failwith ("bad wrapper " ^ x)
+let kind_of_string (s : string) : wkind =
+  match String.split_on_char ':' s with
+  | ["range"] -> KRange | ["date"] -> KDate | ["time"] -> KTime | ["naive"] -> KNaive | ["datetime"] -> KDateTime
+  | ["mapset"] -> KMapSet | ["msgerr"; k] -> KMsgErr (n_of_dec k) | ["keyerr"] -> KKeyErr | ["termerr"; k] -> KTermErr (n_of_dec k)
+  | ["undef"] -> KUndef | ["fclause"] -> KFClause | ["cond"] -> KCond
+  | _ -> failwith ("bad kind " ^ s)
+let show_w (w : wval) : string =
+  let z = dec_of_z in
+  match w with
+  | WRange r -> Printf.sprintf "range %s %s %s" (z r.rfirst) (z r.rlast) (z r.rstep)
+  | WDate (y, m, d) -> Printf.sprintf "date %s %s %s" (z y) (z m) (z d)
+  | WTime (h, mi, s, us, p) -> Printf.sprintf "time %s %s %s %s %s" (z h) (z mi) (z s) (z us) (z p)
+  | WNaive (y, m, d, h, mi, s, us, p) ->
+      Printf.sprintf "naive %s %s %s %s %s %s %s %s" (z y) (z m) (z d) (z h) (z mi) (z s) (z us) (z p)
+  | WDateTime (y, m, d, h, mi, s, us, p, tz, ab, utc, std) ->
+      Printf.sprintf "datetime %s %s %s %s %s %s %s %s %s %s %s %s" (z y) (z m) (z d) (z h) (z mi) (z s) (z us) (z p)
+        (estr_out tz) (estr_out ab) (z utc) (z std)
+  | WMapSet els -> String.concat " " (("mapset " ^ string_of_int (List.length els)) :: List.map term_str els)
+  | WMsgErr (k, m) -> Printf.sprintf "msgerr %d %s" (min (int_of_n k) 2) (estr_out m)
+  | WKeyErr (k, tm, m) -> Printf.sprintf "keyerr %s %s %s" (term_str k) (term_str tm) (estr_opt_out m)
+  | WTermErr (k, tm) -> Printf.sprintf "termerr %d %s" (min (int_of_n k) 4) (term_str tm)
+  | WUndef (m, f, a, r) -> Printf.sprintf "undef %s %s %s %s" (estr_out m) (estr_out f) (z a) (estr_opt_out r)
+  | WFClause (m, f, a, args) ->
+      Printf.sprintf "fclause %s %s %s %s" (estr_opt_out m) (estr_opt_out f) (match a with None -> "-" | Some a -> z a)
+        (match args with None -> "-" | Some t -> "T " ^ term_str t)
+  | WCond -> "cond"
+let show_wopt = function None -> "None" | Some w -> show_w w
+let rec term_depth (t : term) : int =
+  let mx l = List.fold_left (fun a x -> max a (term_depth x)) 0 l in
+  match t with
+  | TList l | TTuple l -> 1 + mx l
+  | TImproper (l, tl) -> 1 + max (mx l) (term_depth tl)
+  | TMap kvs -> 1 + List.fold_left (fun a (k, v) -> max a (max (term_depth k) (term_depth v))) 0 kvs
+  | TIntFun (_, _, _, _, _, _, _, _, fr) -> 1 + mx fr
+  | _ -> 1
+let opt_term = function Some t -> term_str t | None -> "ERR"
+let rd_entries (t : toks) : (n list * term) list =
+  let n = int_of_string (next t) in
+  let rec many n = if n = 0 then [] else let k = bytes_of_hex (next t) in let v = rd_term cmp_owned t in (k, v) :: many (n - 1) in
+  many n
+let elixir_case (line : string) : string =
+  let t = { l = words line } in
+  match next t with
+  | "range" ->
+      let f = zt t in let l = zt t in let s = zt t in
+      let r = { rfirst = f; rlast = l; rstep = s } in
+      let k = int_of_string (next t) in
+      let probes = List.map z_of_dec t.l in
+      let cs = List.map (r_contains r) probes in
+      let its = it_take r (nat_of_int k) (it_init r) in
+      (match r_len r with
+       | None -> "PANIC"
+       | Some len ->
+         if List.exists (fun c -> c = None) cs || List.exists (fun (h, _) -> h = None) its then "PANIC" else
+         Printf.sprintf "len=%s empty=%d contains=%s iter=%s" (dec_of_z len) (if r_empty r then 1 else 0)
+           (String.concat "" (List.map (function Some true -> "1" | _ -> "0") cs))
+           (String.concat "," (List.map (fun (h, o) ->
+               (match h with Some h -> dec_of_z h | None -> "?") ^ ":" ^ (match o with Some v -> dec_of_z v | None -> "-")) its)))
+  | "to" -> term_str (wto_term (rd_w t))
+  | "from" -> let k = kind_of_string (next t) in show_wopt (wfrom_term k (rd_term cmp_owned t))
+  | "rt" ->
+      let w = rd_w t in
+      let k = kind_of w in
+      let tm = wto_term w in
+      let mem = show_wopt (wfrom_term k tm) in
+      let wire = (match encode tm with
+        | EErr _ -> "ENCERR"
+        | EOk b -> (match decode (mk_cfg owned_arms [] []) b with
+            | DOk t2 -> show_wopt (wfrom_term k t2)
+            | _ -> "DECERR")) in
+      Printf.sprintf "mem=%s wire=%s" mem wire
+  | "pl" ->
+      let op = next t in
+      let tm = rd_term cmp_owned t in
+      (match op with
+       | "norm" -> opt_term (normalize_proplist tm)
+       | "tomap" -> opt_term (proplist_to_map tm)
+       | "toplist" -> opt_term (map_to_proplist tm)
+       | "rec" -> term_str (to_map_recursive (nat_of_int (term_depth tm + 1)) tm)
+       | "isprop" -> if is_proplist tm then "1" else "0"
+       | "there" -> (match proplist_to_map tm with None -> "ERR" | Some m -> opt_term (map_to_proplist m))
+       | "back" -> (match map_to_proplist tm with None -> "ERR" | Some l -> opt_term (proplist_to_map l))
+       | x -> failwith ("bad pl op " ^ x))
+  | "kw" -> term_str (kw_build (rd_entries t))
+  | "akm" -> term_str (akm_build (rd_entries t))
+  | "kwget" ->
+      let name = bytes_of_hex (next t) in
+      (match kw_build (rd_entries t) with
+       | TList els -> (match proplist_get_atom_key name els with Some v -> term_str v | None -> "None")
+       | _ -> "None")
+  | x -> failwith ("bad elixir op " ^ x)
+
 let () =
   let domain = if Array.length Sys.argv > 1 then Sys.argv.(1) else "" in
   let f = match domain with
@@ -476,6 +597,7 @@ let () =
     | "ord" -> ord_case
     | "control" -> control_case
     | "handshake" -> handshake_case
+    | "elixir" -> elixir_case
     | _ -> prerr_endline ("unknown domain " ^ domain); exit 2 in
   (try
     while true do
